@@ -182,10 +182,18 @@ class Locator(object):
   def occurrences(self, self_table, text):
     """List of Occ, or None when the text does not parse."""
     src = prepare(text)
+    shift = 0
     try:
       tree = ast.parse(src)
     except (SyntaxError, ValueError):
-      return None
+      # a formula whose lines are all indented (the engine dedents it): parse it as the body of a block
+      head = 'if 1:\n'
+      try:
+        tree = ast.parse(head + src)
+      except (SyntaxError, ValueError):
+        return None
+      tree = ast.Module(body=tree.body[0].body, type_ignores=[])
+      src, shift = head + src, len(head)
     self.pos = _Pos(src)
     self.src = src
     self.out = []
@@ -193,6 +201,9 @@ class Locator(object):
     for st in tree.body:
       self.visit(st, self_table, env)
       self._assign(st, self_table, env)
+    for o in self.out:
+      o.start -= shift
+      o.end -= shift
     return sorted(self.out, key=lambda o: o.key())
 
   def _start(self, node):
